@@ -90,6 +90,7 @@ func vLexLE(a, b weight) bool {
 //@ func newStyleFor
 //@   props C03
 //@   modifies anything
+//@   unclaimed call-match@1-pre1 "the element being styled is a node of the document and compiled selector lists contain no nil selector: data invariants of the style sheets, not tracked through the sheet list"
 //@   call mapupdate#2 assert we.precedence == declarationPrecedence("author", decl.Important) && we.specificity == styleAttr.specificity
 //@   call mapupdate#2 assert oldWeight.isNone() || vLexLE(oldWeight, we)
 //@   call mapupdate#2 assert arg2.weight == we && arg1 == decl.Name
